@@ -104,6 +104,7 @@ Lemma Q_set_queue s v : Q s (set_queue s v). Proof. apply Q_same; reflexivity. Q
 Lemma Q_set_timers s v : Q s (set_timers s v). Proof. apply Q_same; reflexivity. Qed.
 Lemma Q_set_nrecs s v : Q s (set_nrecs s v). Proof. apply Q_same; reflexivity. Qed.
 Lemma Q_updr s r f : Q s (updr s r f). Proof. apply Q_same; reflexivity. Qed.
+Lemma Q_set_probes s v : Q s (set_probes s v). Proof. apply Q_same; reflexivity. Qed.
 
 Ltac nm := first [apply nm_reg | apply nm_handling | apply nm_pools | apply nm_present | apply nm_up0 | apply nm_up2
                  | apply nm_pools_fun
@@ -126,6 +127,7 @@ Ltac q := lazymatch goal with
   | |- Q _ (set_timers _ _) => qstep Q_set_timers; q
   | |- Q _ (set_nrecs _ _) => qstep Q_set_nrecs; q
   | |- Q _ (updr _ _ _) => qstep Q_updr; q
+  | |- Q _ (set_probes _ _) => qstep Q_set_probes; q
   end.
 
 Lemma G_on_up s h : G s (on_up s h).
@@ -194,16 +196,24 @@ Proof.
   - destruct cb; apply Q_G; q.
 Qed.
 
-Lemma G_reconnect s r o : G s (reconnect s r o).
+Lemma G_probe_finish s r o : G s (probe_finish s r o).
 Proof.
-  unfold reconnect. destruct (rcanc (recs s r)); [apply Q_G, Q_refl|].
-  assert (H0 : Q s (emit s (NAttempt (rhost (recs s r))))) by q.
-  destruct o.
-  - eapply Q_G_trans; [exact H0|]. eapply G_Q; [| apply Q_updh, nm_reg].
+  unfold probe_finish. destruct o.
+  - destruct (rcanc (recs s r)); [apply Q_G, Q_refl|].
+    eapply G_Q; [| apply Q_updh, nm_reg].
     destruct (radd (recs s r)); [apply G_on_add | apply G_on_up].
   - apply Q_G. destruct (rleft (recs s r)) as [[|n]|]; q.
   - apply Q_G. q.
 Qed.
+
+Lemma G_reconnect s r o : G s (reconnect s r o).
+Proof.
+  unfold reconnect. destruct (rcanc (recs s r)); [apply Q_G, Q_refl|].
+  eapply Q_G_trans; [| apply G_probe_finish]. q.
+Qed.
+
+Lemma Q_probe_start s r : Q s (probe_start s r).
+Proof. unfold probe_start. destruct (rcanc (recs s r)); q. Qed.
 
 Lemma G_step_ s e : G s (step_ s e).
 Proof.
@@ -218,6 +228,10 @@ Proof.
     eapply Q_G_trans; [| apply G_reconnect]. q.
   - destruct (nth_error (queue s) k); [| apply Q_G, Q_refl].
     eapply Q_G_trans; [| apply G_run_task]. q.
+  - destruct (nth_error (timers s) k); [| apply Q_G, Q_refl].
+    apply Q_G. eapply Q_trans; [| apply Q_probe_start]. q.
+  - destruct (nth_error (probes s) j); [| apply Q_G, Q_refl].
+    eapply Q_G_trans; [| apply G_probe_finish]. q.
 Qed.
 
 Lemma lc_rev h l : lc h (rev l) = lc h l.
